@@ -132,3 +132,96 @@ def h_schedule(xkind: int, nested: bool, origin_all: int, cycle: bool, local_def
 
 
 FULL = tier(False, True)
+
+
+# ------------------------------------------------------------------ K06b: a class chain across modules; what post-processing derives
+CH_ATTR = ["absent", "classvar", "instvar", "classvar_doc", "instvar_doc", "property"]
+NCA = len(CH_ATTR)
+CH_IMPORT = ["plain", "from", "pkgattr"]
+
+
+def chain_sources(attrs, imps, docs):
+    """pkg/{ma,mb,mc}: class A in ma, B(A) in mb, C(B) in mc; each class may define attribute v and method m"""
+    def body(i, name):
+        a = CH_ATTR[attrs[i]]
+        out = "    '''%s'''\n" % name if (docs >> i) & 1 else ""
+        if a == "classvar":
+            out += "    v = %d\n" % i
+        elif a == "classvar_doc":
+            out += "    v = %d\n    '''v in %s'''\n" % (i, name)
+        elif a == "instvar":
+            out += "    def __init__(self):\n        self.v = %d\n" % i
+        elif a == "instvar_doc":
+            out += "    def __init__(self):\n        self.v = %d\n        '''v in %s'''\n" % (i, name)
+        elif a == "property":
+            out += "    @property\n    def v(self):\n        '''v in %s'''\n        return %d\n" % (name, i)
+        out += "    def m(self):\n" + ("        '''m in %s'''\n" % name if (docs >> (3 + i)) & 1 else "        pass\n")
+        return out
+
+    def imp(form, mod, cls):
+        if form == "plain":
+            return "import pkg.%s\n" % mod, "pkg.%s.%s" % (mod, cls)
+        if form == "from":
+            return "from pkg.%s import %s\n" % (mod, cls), cls
+        return "from pkg import %s\n" % mod, "%s.%s" % (mod, cls)
+    ia, ba = imp(CH_IMPORT[imps[0]], "ma", "A")
+    ib, bb = imp(CH_IMPORT[imps[1]], "mb", "B")
+    return {
+        "pkg": ("'''pkg'''\n", True),
+        "pkg.ma": ("class A:\n" + body(0, "A"), False),
+        "pkg.mb": (ia + "class B(%s):\n" % ba + body(1, "B"), False),
+        "pkg.mc": (ib + "class C(%s):\n" % bb + body(2, "C"), False),
+    }
+
+
+def chain_dump(s):
+    d = T.dump(s)
+    for k, o in s.allobjects.items():
+        if isinstance(o, model.Inheritable):
+            d[k] = d[k] + (tuple(x.fullName() for x in o.docsources()),)
+    return d
+
+
+def check_chain(attrs, imps, docs, si):
+    sources = chain_sources(attrs, imps, docs)
+    scheds = T.schedules(sources)
+    if si == 0 or si >= len(scheds):
+        return True
+    sample(attributes=[CH_ATTR[a] for a in attrs], imports=[CH_IMPORT[i] for i in imps], default_order=scheds[0], order=scheds[si], sources={k: v[0] for k, v in sources.items()})
+    base = chain_dump(PJ.build(sources))
+    got = chain_dump(PJ.build(sources, schedule=T.scheduler(scheds[si])))
+    if got != base:
+        diff = {k: (base.get(k), got.get(k)) for k in set(base) | set(got) if base.get(k) != got.get(k)}
+        note(why="what is documented depends on the order in which sibling modules are analysed", order=scheds[si], diff={k: repr(v)[:400] for k, v in list(diff.items())[:4]},
+             attributes=[CH_ATTR[a] for a in attrs], imports=[CH_IMPORT[i] for i in imps], sources={k: v[0] for k, v in sources.items()})
+        return False
+    return True
+
+
+from pydoctor import model  # noqa: E402
+
+
+@harness(
+    parts=lambda: [[a, b] for a in range(NCA) for b in range(NCA)], timeout=(240, 1200), cls="E", tracing="concrete-after-choice", twin="first",
+    code=["pydoctor.model.defaultPostProcess", "_inherits_instance_variable_kind", "Inheritable.docsources", "Class._init_mro / compute_mro / init_finalbaseobjects", "pydoctor.astbuilder.ModuleVistor.visit_Import/visit_ImportFrom (on-demand processing)", "System.process / processModule"],
+    bounds={"quick": "a three-class chain A <- B <- C over three sibling modules; attribute v per class absent / class variable / instance variable / each with docstring / property (216 combinations); import form of each base plain / from / through the package (9); all 6 analysis orders; class and method docstrings present on a solver-chosen subset (quick: one fixed subset, thorough: all 64)",
+            "thorough": "same x every subset of docstrings"},
+    outside="chains longer than three; diamonds (C05 decides linearisations); several roots",
+)
+def h_chain_schedule(a2: int, i0: int, i1: int, docs: int, si: int) -> bool:
+    """
+    pre: 0 <= a2 < NCA and 0 <= i0 <= 2 and 0 <= i1 <= 2 and 0 <= docs < 64 and 1 <= si <= 5
+    pre: FULLC or docs == 9
+    post: _
+    """
+    a0, a1 = PART if PART is not None else [2, 1]
+    a2 = pick(a2, 0, NCA - 1)
+    i0, i1 = pick(i0, 0, 2), pick(i1, 0, 2)
+    docs = pick(docs, 0, 63)
+    si = pick(si, 1, 5)
+    with NoTracing():
+        ok = check_chain([a0, a1, a2], [i0, i1], docs, si)
+    return done(ok)
+
+
+FULLC = tier(False, True)
